@@ -607,6 +607,17 @@ func generateSpecs(w *World, p *packages.Package, contracts []*FuncContract) (st
 						used[n] = true
 						continue
 					}
+					if strings.HasPrefix(n, "addrof_") {
+						// addrof_x: the address of the local variable x (a clause cannot write &x: locals are
+						// handed to the clause by value)
+						_, obj := sc.LookupParent(n[7:], pos)
+						if v, ok := obj.(*types.Var); ok && v.Pkg() == declP.Types && !v.IsField() && v.Pos() >= decl.Pos() && v.Pos() <= decl.End() {
+							g.Args = append(g.Args, ArgSpec{Kind: "localaddr", Name: n, Var: v})
+							params = append(params, n+" *"+tstr(v.Type()))
+							used[n] = true
+						}
+						continue
+					}
 					_, obj := sc.LookupParent(n, pos)
 					v, ok := obj.(*types.Var)
 					if !ok || v.Pkg() != declP.Types || v.Parent() == declP.Types.Scope() || v.IsField() {
